@@ -357,3 +357,15 @@ M('C06', 'total-stake-unchecked', REGF,
                         accumulated_stake: acc,
                         stake: entry.get_stake(),
                     })""", """                Ok::<u64, RegisterError>(acc.wrapping_add(entry.get_stake()))""", ['total-stake'], 'total stake wraps')
+
+# ---------------------------------------------------------------- C08
+M('C08', 'signer-range-inclusive', STM + 'proof_system/concatenation/signer.rs',
+  'for index in 0..self.parameters.m {', 'for index in 0..=self.parameters.m {', ['signer:range'], 'signer tries index m')
+M('C08', 'signer-roles-swapped', STM + 'proof_system/concatenation/signer.rs',
+  """                self.stake,
+                self.total_stake,
+            ) {""", """                self.total_stake,
+                self.stake,
+            ) {""", ['is_lottery_won'], 'signer and verifier disagree on roles')
+M('C08', 'draw-ignores-index', STM + 'signature_scheme/bls_multi_signature/signature.rs',
+  '            .chain_update(index.to_le_bytes())\n', '            .chain_update({ let _ = index; 0u64.to_le_bytes() })\n', ['dense_mapping:inputs'], 'same draw for every index')
